@@ -258,6 +258,24 @@ def part_check(kind, case, rec):
     flat = np.concatenate([f.values.ravel() for f in fc.fields])
     rec.require("apply-full-leaves-free-unknowns", np.array_equal(np.asarray(full).ravel()[dof1], flat[dof1]))
     rec.require("apply-does-not-modify-field", np.array_equal(flat, np.concatenate([f.values.ravel() for f in fc.fields])))
+    # two boundaries created from ONE start array of whole numbers (value=np.zeros(dim, int) for both end faces), then one of them
+    # gets new values through update(): the other keeps its zeros, the caller's array is left alone, the new values arrive unrounded
+    f0 = fc.fields[0]
+    X0 = np.asarray(f0.region.mesh.points)
+    lo_, hi_ = float(X0[:, 0].min()), float(X0[:, 0].max())
+    if hi_ > lo_:
+        start = np.zeros(f0.dim, dtype=int)
+        bA = fem.Boundary(f0, fx=lo_, value=start)
+        bB = fem.Boundary(f0, fx=hi_, value=start)
+        new = np.round(r.uniform(-1, 1, f0.dim), 3) + 0.25
+        bB.update(new)
+        extAB = np.asarray(fem.dof.apply(fc, {"A": bA, "B": bB})).ravel()
+        okA = bool(np.all(extAB[np.asarray(bA.dof).ravel()] == 0.0))
+        gotB = extAB[np.asarray(bB.dof).reshape(-1, f0.dim)]
+        okB = bool(np.all(gotB == new[None, :]))
+        rec.require("update()-of-one-boundary:the-other-keeps-its-values", okA)
+        rec.require("update()-of-one-boundary:new-values-arrive-unrounded", okB, gotB[:1].tolist())
+        rec.require("update()-leaves-the-caller's-start-array-alone", bool(np.all(start == 0)) and start.dtype.kind == "i")
     overlap = any(len(v) > 1 for v in owners.values())
     rec.nontrivial = (len(fc.fields) >= 2 or len(bounds) >= 2) and (overlap or bool(free_pts))
     if overlap:
